@@ -69,20 +69,68 @@ def impl_str(case):
     return out, fail, 'str:' + name
 
 
+def grammar_denotes(txt):
+    """The text format, written down independently of mido's parser: `type name=value ...`, words separated by whitespace, each name an attribute
+    of that type (or time; a repeated name overrides the earlier value, which the property leaves open and mido accepts), integers in Python's int syntax, time an int or a float, data `(b,b,...)`.  Returns the message the
+    text denotes, or None when the text is not a valid message."""
+    import mido
+    from mido.messages.specs import SPEC_BY_TYPE
+    words = txt.split()
+    if not words or words[0] not in SPEC_BY_TYPE:
+        return None
+    names = list(SPEC_BY_TYPE[words[0]]['value_names']) + ['time']
+    kw = {}
+    for w in words[1:]:
+        if w.count('=') != 1:
+            return None
+        name, v = w.split('=')
+        if name not in names:
+            return None
+        try:
+            if name == 'data':
+                if len(v) < 2 or v[0] != '(' or v[-1] != ')':
+                    return None
+                kw[name] = [int(x) for x in v[1:-1].split(',')] if len(v) > 2 else []
+            elif name == 'time':
+                try:
+                    kw[name] = int(v)
+                except ValueError:
+                    kw[name] = float(v)
+            else:
+                kw[name] = int(v)
+        except ValueError:
+            return None
+    try:
+        return mido.Message(words[0], **kw)
+    except (ValueError, TypeError):
+        return None
+
+
 def impl_parse(case):
     import mido
     txt = ''.join(map(chr, case))
     fail = None
+    try:
+        want = grammar_denotes(txt)
+    except Exception as e:  # noqa: BLE001
+        want = None
+        fail = ('grammar-oracle', 'the grammar oracle raised %r on %r' % (e, txt))
     try:
         m = mido.parse_string(txt)
         out = [0] + canon.msg_ints(m) + canon_time(m.time)
         from props.c02 import valid_msg
         if not valid_msg(m):
             fail = ('parse-invalid', 'parse_string(%r) returned the invalid message %r' % (txt, vars(m)))
+        elif want is None:
+            fail = ('accepts-invalid', 'parse_string(%r) returned %r, but the text is not a valid message (it must raise ValueError)' % (txt, m))
+        elif repr(want) != repr(m):
+            fail = ('parse-wrong', 'parse_string(%r) returned %r, the text denotes %r' % (txt, m, want))
         tag = 'parse:ok'
     except ValueError:
         out = [-1, 1]
         tag = 'parse:ValueError'
+        if want is not None:
+            fail = ('rejects-valid', 'parse_string(%r) raised ValueError, but the text denotes the valid message %r' % (txt, want))
     except Exception as e:  # noqa: BLE001
         out = [-1, core.exn_code(e)]
         tag = 'parse:other'
@@ -188,6 +236,8 @@ WORDS_BAD = ['foo', '', 'note_on note', 'note_on note=', 'note_on =1', 'note_on 
              'note_on time=abc', 'note_on time=1e5', 'note_on time=inf', 'note_on time=1_000', 'note_on note=1_0', 'note_on note=_1', 'note_on note=+5',
              'note_on note=-1', 'note_on note=0x10', 'sysex data=()', 'sysex data=(1,2)', 'sysex data=(1,)', 'sysex data=(', 'sysex data=)', 'sysex data=1,2',
              'sysex data=(1 2)', 'sysex data=(1,2', 'sysex data=1,2)', 'sysex data=(128)', 'sysex data=(-1)', 'sysex data=(1,,2)', 'sysex data=(a)',
+             'sysex data=((1,2))', 'sysex data=(())', 'sysex data=()()', 'sysex data=(1,2))', 'sysex data=((1,2)', 'sysex data=(()', 'sysex data=())', 'sysex data=((',
+             'sysex data=(1),(2)', 'sysex data=(1)(2)', 'sysex data=( )', 'sysex data=(,)', 'sysex data=[1,2]', 'sysex data=(1,2) data=(3)', 'sysex data=(+1,0_1)',
              'NOTE_ON', 'note_on  note=5   velocity=7', '\tnote_on\nnote=5', 'pitchwheel pitch=-8192', 'pitchwheel pitch=8192', 'songpos pos=16383',
              'clock', 'clock time=0.5', 'clock note=1', 'note_on=1', '=', 'note_on note==1', 'note_on time=', 'note_on time=-', 'note_on time=.5',
              'note_on time=5.', 'note_on time=1e', 'note_on time=nan', 'note_on time=-inf', 'note_on time=1__0', 'quarter_frame frame_type=7 frame_value=15']
@@ -203,6 +253,11 @@ def mutate_line(rng, s):
         return s + ' ' + rng.choice(['foo=1', 'time=2', 'note=300', 'data=(1,2)', 'type=1', 'x', 'velocity=1', 'channel=0'])
     if r < 0.8:
         w = s.split(); rng.shuffle(w); return ' '.join(w)
+    if r < 0.9 and ('(' in s or '-' in s or '.' in s):
+        # doubled or nested punctuation inside a value
+        c = rng.choice([c for c in '()-.' if c in s])
+        i = rng.choice([k for k, x in enumerate(s) if x == c])
+        return s[:i] + rng.choice([c, c + c, '(', ')', '()']) + s[i:]
     return s.replace(' ', rng.choice(['  ', '\t', ' \n ']))
 
 
